@@ -27,6 +27,8 @@ structure PState where
   srv       : C03.Srv := {}
   scripts   : List (Ty × Script) := []
   delivered : Delivered := []
+  grpc      : Bool := false     -- the proxy of the case is a proxyless gRPC client
+  needs     : Bool := true      -- what ProxyNeedsPush answers for pushes
   dsys      : DSys := DSys.init
   dty       : Ty := .eds
 
@@ -105,10 +107,13 @@ def stepProc (p : PState) (toks : List String) : PState × String :=
     | none => (p, "bad-op")
     | some t =>
       let r : Req := { ty := t, names := decList names, nonce := resolveP p.delivered t nk, err := decErr err }
-      match procSotw p.gen p.srv r with
+      match (if p.grpc then procSotwGrpc p.gen p.srv r else procSotw p.gen p.srv r) with
       | none => (p, "crash")
       | some o => p.finish o
-  | ["push"] => p.finish (pushConnSotwC p.gen p.srv)
+  | ["needs", v] => ({ p with needs := tokBool v }, "ok")
+  | ["version", _] => (p, "ok")
+  | ["push"] => if p.needs then p.finish (pushConnSotwC p.gen p.srv) else p.finish { srv := p.srv, sent := [], calls := [] }
+  | ["fpush"] => if p.needs then p.finish (pushConnSotwC p.gen p.srv) else p.finish { srv := p.srv, sent := [], calls := [] }
   | ["dreq", ty, sub, unsub, init, nk, err] =>
     match Ty.ofTok ty with
     | none => (p, "bad-op")
@@ -118,7 +123,8 @@ def stepProc (p : PState) (toks : List String) : PState × String :=
       match procDelta p.gen p.srv r with
       | none => (p, "crash")
       | some o => p.finish o
-  | ["dpush"] => p.finish (pushConnDeltaC p.gen p.srv)
+  | ["dpush"] => if p.needs then p.finish (pushConnDeltaC p.gen p.srv) else p.finish { srv := p.srv, sent := [], calls := [] }
+  | ["dfpush"] => if p.needs then p.finish (pushConnDeltaC p.gen p.srv) else p.finish { srv := p.srv, sent := [], calls := [] }
   | _ => (p, "bad-op")
 
 /-! ### stream recv -/
@@ -196,6 +202,7 @@ def stepDloop (p : PState) (toks : List String) : PState × String :=
 def stepP (p : PState) (toks : List String) : PState × String :=
   match toks with
   | ["case", _, "proc"] => ({ base := p.base, stream := "proc" }, "ok")
+  | ["case", _, "proc", "grpc"] => ({ base := p.base, stream := "proc", grpc := true }, "ok")
   | ["case", _, "dproc"] => ({ base := p.base, stream := "dproc" }, "ok")
   | ["case", _, "recv"] => ({ base := p.base, stream := "recv" }, "ok")
   | ["case", _, "dloop", ty] =>
